@@ -49,6 +49,7 @@ package prunner
 
 // ---------------------------------------------------------------------------------------
 //@ func (*PipelineJob).isRunning
+//@   safety
 //@   lockmode any
 //@   requires [nonnil] j != nil
 //@   requires [guard] $held >= 1 || !$pub[j]
@@ -56,6 +57,7 @@ package prunner
 //@   modifies nothing
 
 //@ func (*PipelineRunner).runningJobsCount
+//@   safety
 //@   lockmode R
 //@   requires [ri] RIbase(r) && RIjobs(r)
 //@   ensures  [count] res == running(r, pipeline)
@@ -63,6 +65,7 @@ package prunner
 //@   loop 1 invariant [prefix] 0 <= $i + 1 && $i + 1 <= len(r.jobsByPipeline[pipeline]) && running == cnt(r.jobsByPipeline[pipeline][:$i+1], jobRunning)
 
 //@ func (*PipelineRunner).isRunning
+//@   safety
 //@   lockmode R
 //@   requires [ri] RIbase(r) && RIjobs(r)
 //@   ensures  [C15.running] res <==> exists k :: 0 <= k && k < len(r.jobsByPipeline[pipeline]) && jobRunning(r.jobsByPipeline[pipeline][k])
@@ -70,6 +73,7 @@ package prunner
 //@   loop 1 invariant [none] 0 <= $i + 1 && $i + 1 <= len(r.jobsByPipeline[pipeline]) && forall k :: 0 <= k && k <= $i ==> !jobRunning(r.jobsByPipeline[pipeline][k])
 
 //@ func (*PipelineRunner).resolveScheduleAction
+//@   safety
 //@   lockmode R
 //@   requires [ri] RIbase(r) && RIjobs(r)
 //@   ensures  [C05.table] res == admit(r, pipeline, ignoreStartDelay)
@@ -78,6 +82,7 @@ package prunner
 //@   modifies nothing
 
 //@ func (*PipelineRunner).resolveDequeueJobAction
+//@   safety
 //@   lockmode R
 //@   requires [ri] RIbase(r) && RIjobs(r) && job != nil
 //@   ensures  [C03.dequeueDecision] job.startTimer == nil && running(r, job.Pipeline) < conc(r, job.Pipeline) ==> res == scheduleActionStart
@@ -86,12 +91,14 @@ package prunner
 //@   modifies nothing
 
 //@ func (*PipelineRunner).isSchedulable
+//@   safety
 //@   lockmode R
 //@   requires [ri] RIbase(r) && RIjobs(r)
 //@   ensures  [C15.sched] res <==> (admit(r, pipeline, false) != scheduleActionNoQueue && admit(r, pipeline, false) != scheduleActionQueueFull)
 //@   modifies nothing
 
 //@ func (*PipelineRunner).determineIfJobShouldBeRemoved
+//@   safety
 //@   lockmode R
 //@   requires [ri] RIbase(r) && job != nil
 //@   ensures  [C12.decision] res0 <==> (!defined(r, job.Pipeline) || (!jobWaiting(job) && (job.Completed || job.Canceled) && ((r.defs.Pipelines[job.Pipeline].RetentionPeriod > 0 && $clock - job.Created > r.defs.Pipelines[job.Pipeline].RetentionPeriod) || (r.defs.Pipelines[job.Pipeline].RetentionCount > 0 && index >= r.defs.Pipelines[job.Pipeline].RetentionCount))))
@@ -113,6 +120,7 @@ package prunner
 //@   modifies $persist
 
 //@ func (*PipelineJob).markAsCanceled
+//@   safety
 //@   lockmode W
 //@   requires [nonnil] j != nil
 //@   ensures  [canceled] j.Canceled && forall i :: 0 <= i && i < len(j.Tasks) ==> j.Tasks[i].Canceled
@@ -121,12 +129,14 @@ package prunner
 //@   loop 1 invariant [tasks] 0 <= $i + 1 && $i + 1 <= len(j.Tasks) && j.Canceled && (forall i :: 0 <= i && i <= $i ==> j.Tasks[i].Canceled) && TtaskCanceled()
 
 //@ func (*PipelineJob).deinitScheduler
+//@   safety
 //@   lockmode W
 //@   requires [nonnil] j != nil && j.sched != nil
 //@   ensures  [cleared] j.sched == nil && j.taskRunner == nil
 //@   modifies PipelineJob.sched@[j], PipelineJob.taskRunner@[j]
 
 //@ func (*PipelineRunner).initScheduler
+//@   safety
 //@   lockmode W
 //@   requires [nonnil] r != nil && j != nil
 //@   ensures  [set] j.sched != nil && fresh(j.sched)
@@ -134,6 +144,7 @@ package prunner
 
 //@ pure removedRel(e *PipelineJob, i int, w []*PipelineJob, m int) bool = (i < m ==> e == w[i]) && (i >= m ==> e == w[i+1])
 //@ func removeJobFromWaitList
+//@   safety
 //@   lockmode R
 //@   ensures  [absent] all(waitList, neq, jobToRemove) ==> res == waitList
 //@   ensures  [removed] !all(waitList, neq, jobToRemove) ==> len(res) == len(waitList) - 1 && fresh(base(res)) && off(res) == 0 && exists m :: 0 <= m && m < len(waitList) && waitList[m] == jobToRemove && allIdx(res, removedRel, waitList, m)
@@ -153,6 +164,7 @@ package prunner
 
 //@ pure taskFromDef(e *jobTask, tasks map[string]definition.TaskDef) bool = (e.Name in tasks) && e.Script == tasks[e.Name].Script && e.DependsOn == tasks[e.Name].DependsOn && e.AllowFailure == tasks[e.Name].AllowFailure && e.Env == tasks[e.Name].Env && e.Status == "waiting" && e.Start == nil && e.End == nil && !e.Errored && !e.Canceled && !e.Skipped && e.Error == nil
 //@ func buildJobTasks
+//@   safety
 //@   lockmode any
 //@   ensures [fresh] fresh(base(result)) && off(result) == 0
 //@   ensures [C16.copy] len(result) == len(tasks) && all(result, taskFromDef, tasks)
@@ -170,6 +182,7 @@ package prunner
 //@ pure stageDeps(st *scheduler.Stage, t *jobTask) bool = st.DependsOn == t.DependsOn && st.AllowFailure == t.AllowFailure
 //@ pure stageTask(st *scheduler.Stage, t *jobTask) bool = st.Task != nil && st.Task.Name == t.Name && st.Task.AllowFailure == t.AllowFailure
 //@ func buildPipelineGraph
+//@   safety
 //@   lockmode any
 //@   ensures [C18.reservedName] len(tasks) > 0 && (taskctl.JobIDVariableName in vars) ==> res1 != nil
 //@   modifies nothing
@@ -188,6 +201,7 @@ package prunner
 //@   loop 2 invariant [tasks] forall k :: 0 <= k && k <= $i1 ==> stageTask(stages[k], tasks[k])
 
 //@ func (*PipelineRunner).startJob
+//@   safety
 //@   lockmode W
 //@   requires [ri] RI(r) && job != nil
 //@   requires [notStarted] job.Canceled || (job.Start == nil && !job.Completed)
@@ -207,6 +221,7 @@ package prunner
 //@   modifies PipelineJob.Start, PipelineJob.sched, PipelineJob.taskRunner, PipelineJob.LastError, PipelineJob.Canceled, taskctl.Scheduler.onStageChange, map(map[string][]*PipelineJob)@[r.waitListByPipeline], mem(time.Time), $persist, $clock, $wgTokens
 
 //@ func (*PipelineRunner).startJobsOnWaitList
+//@   safety
 //@   lockmode W
 //@   requires [ri] RI(r)
 //@   ensures  [ri] RI(r)
@@ -230,6 +245,7 @@ package prunner
 //@ pure tasksCanceled(j *PipelineJob) bool = forall i :: 0 <= i && i < len(j.Tasks) ==> j.Tasks[i].Canceled
 
 //@ func (*PipelineRunner).cancelJobInternal
+//@   safety
 //@   lockmode W
 //@   requires [ri] RI(r)
 //@   ensures  [ri] RI(r)
@@ -247,6 +263,7 @@ package prunner
 //@   at go (*PipelineRunner).cancelJobInternal$1#1: assert [C11.cancelTracked] $wgTokens >= old($wgTokens) + 1
 
 //@ func (*PipelineRunner).CancelJob
+//@   safety
 //@   lockmode none
 //@   ensures  [C04.unknown] !(id in old(r.jobsByID)) ==> res == ErrJobNotFound && unchangedHeap()
 //@   ensures  [C04.alreadyCanceled] (id in old(r.jobsByID)) && old(r.jobsByID[id].Canceled) ==> res == nil && unchangedHeap()
@@ -263,12 +280,14 @@ package prunner
 // Entry points (critical sections of the monitor)
 
 //@ func (*PipelineRunner).ReplaceDefinitions
+//@   safety
 //@   lockmode none
 //@   requires [valid] defs != nil
 //@   ensures  [C16.defsOnly] r.defs == defs
 //@   modifies PipelineRunner.defs@[r]
 
 //@ func (*PipelineRunner).StartDelayedJob
+//@   safety
 //@   lockmode none
 //@   ensures  [C03.timerTruth] (id in old(r.jobsByID)) && !old(r.jobsByID[id].Canceled) ==> old(r.jobsByID[id]).startTimer == nil || old(r.jobsByID[id]).Canceled
 //@   ensures  [C03.progress] (id in old(r.jobsByID)) && !old(r.jobsByID[id].Canceled) ==> progress(r, old(r.jobsByID[id]).Pipeline)
@@ -277,6 +296,7 @@ package prunner
 //@   ensures  [defs] r.defs == old(r.defs)
 
 //@ func (*PipelineRunner).JobCompleted
+//@   safety
 //@   lockmode none
 //@   assumes  [token] (id in r.jobsByID) ==> r.jobsByID[id].Start != nil && r.jobsByID[id].sched != nil
 //@   ensures  [C04.verdict] (id in old(r.jobsByID)) ==> old(r.jobsByID[id]).Completed && old(r.jobsByID[id]).End != nil && old(r.jobsByID[id]).LastError == err && (errIs(err, context.Canceled) ==> old(r.jobsByID[id]).Canceled) && (old(r.jobsByID[id]).Canceled ==> old(r.jobsByID[id].Canceled) || errIs(err, context.Canceled)) && old(r.jobsByID[id]).sched == nil
@@ -299,9 +319,11 @@ package prunner
 //@ pure samePrefix(a []*PipelineJob, n int) bool = forall k :: 0 <= k && k < n ==> a[k] == old(a[k])
 
 //@ func (*PipelineRunner).ScheduleAsync$1
+//@   safety
 //@   lockmode none
 
 //@ func (*PipelineRunner).ScheduleAsync
+//@   safety
 //@   lockmode none
 //@   ensures  [C11.refuse] old(r.isShuttingDown) ==> res1 == ErrShuttingDown
 //@   ensures  [C15.reject] old(r.isShuttingDown) || !old(defined(r, pipeline)) || old(admit(r, pipeline, false)) == scheduleActionNoQueue || old(admit(r, pipeline, false)) == scheduleActionQueueFull ==> res1 != nil
@@ -324,12 +346,14 @@ package prunner
 //@   at call (*PipelineRunner).startJob#1: assert [cntLast] running(r, pipeline) == cnt(r.jobsByPipeline[pipeline][:len(r.jobsByPipeline[pipeline])-1], jobRunning)
 
 //@ func (jobTasks).ByName
+//@   safety
 //@   lockmode R
 //@   ensures  [elem] res == nil || exists i :: 0 <= i && i < len(jt) && res == jt[i] && jt[i].Name == name
 //@   modifies nothing
 //@   loop 1 invariant [bounds] 0 <= $i + 1 && $i + 1 <= len(jt)
 
 //@ func toStatus
+//@   safety
 //@   lockmode any
 //@   ensures [names] (status == scheduler.StatusWaiting ==> res == "waiting") && (status == scheduler.StatusRunning ==> res == "running") && (status == scheduler.StatusSkipped ==> res == "skipped") && (status == scheduler.StatusDone ==> res == "done") && (status == scheduler.StatusError ==> res == "error") && (status == scheduler.StatusCanceled ==> res == "canceled")
 //@   modifies nothing
@@ -351,12 +375,14 @@ package prunner
 //@   ensures  [lists] same("map(map[string][]*PipelineJob)") && same("map(map[uuid.UUID]*PipelineJob)") && same(PipelineJob.Start) && same(PipelineJob.Canceled) && same(PipelineJob.Completed)
 
 //@ func (*PipelineRunner).ReadJob
+//@   safety
 //@   lockmode none
 //@   ensures  [C15.found] (res == nil) <==> (id in old(r.jobsByID))
 //@   ensures  [notFound] res != nil ==> res == ErrJobNotFound
 //@   ensures  [readonly] unchangedHeap()
 
 //@ func (*PipelineRunner).IterateJobs
+//@   safety
 //@   lockmode none
 //@   ensures  [readonly] unchangedHeap()
 
@@ -364,6 +390,7 @@ package prunner
 //@ pure infoSched(e *PipelineInfo, r *PipelineRunner) bool = (e.Schedulable <==> (admit(r, e.Pipeline, false) != scheduleActionNoQueue && admit(r, e.Pipeline, false) != scheduleActionQueueFull))
 //@ pure infoRunning(e *PipelineInfo, r *PipelineRunner) bool = (e.Running <==> exists k :: 0 <= k && k < len(r.jobsByPipeline[e.Pipeline]) && jobRunning(r.jobsByPipeline[e.Pipeline][k]))
 //@ func (*PipelineRunner).ListPipelines
+//@   safety
 //@   lockmode none
 //@   ensures  [readonly] same("map(map[string][]*PipelineJob)") && same("map(map[uuid.UUID]*PipelineJob)") && same(PipelineJob.Start) && same(PipelineJob.Canceled) && same(PipelineJob.Completed) && r.defs == old(r.defs)
 //@   ensures  [C15.list] len(res) == len(r.defs.Pipelines) && all(res, infoDefined, r) && all(res, infoSched, r)
@@ -371,6 +398,7 @@ package prunner
 //@   loop 1 invariant [C15.list] wf(res) && fresh(base(res)) && all(res, infoDefined, r) && all(res, infoSched, r) && len(res) == card($seen) && forall k string :: $seen[k] ==> (k in r.defs.Pipelines)
 
 //@ func (pipelineJobBy).Sort
+//@   safety
 //@   lockmode any
 //@   trusted sort.Sort permutes the slice in place using Len/Less/Swap of pipelineJobsSorter
 //@   ensures [perm] sameOutside("mem(*PipelineJob)", jobs) && permOf(jobs)
@@ -379,6 +407,7 @@ package prunner
 //@ pure swapRel(e *PipelineJob, i int, w []*PipelineJob, m int) bool = (i != m ==> e == old(w[i])) && (i == m ==> e == old(w[len(w)-1]))
 //@ pure idNeq(e *PipelineJob, j *PipelineJob) bool = e.ID != j.ID
 //@ func removeJobFromList
+//@   safety
 //@   lockmode W
 //@   requires [elems] all(jobs, nonNil) && jobToRemove != nil && wf(jobs)
 //@   ensures  [result] base(res) == base(jobs) && off(res) == off(jobs) && cap(res) == cap(jobs) && all(res, nonNil)
@@ -397,6 +426,7 @@ package prunner
 //@ pure snapshotFaithful(r *PipelineRunner, data *store.PersistedData) bool = forall n :: 0 <= n && n < len(data.Jobs) ==> (data.Jobs[n].ID in r.jobsByID) && persistedOf(data.Jobs[n], r.jobsByID[data.Jobs[n].ID])
 
 //@ func (*PipelineRunner).SaveToStore
+//@   safety
 //@   lockmode none
 //@   at call Save#1: assert [C10.persistView] snapshotFaithful(r, data)
 //@   ensures  [T] Tjobs() && jobsUntouched()
@@ -425,6 +455,7 @@ package prunner
 //@   lockmode W
 //@   modifies mem(*PipelineJob)
 //@ func byCreationTimeDesc
+//@   safety
 //@   lockmode any
 //@   requires [nonnil] p1 != nil && p2 != nil
 //@   ensures  [desc] res <==> p2.Created < p1.Created
@@ -455,6 +486,7 @@ package prunner
 //@   at call (*PipelineRunner).SaveToStore#1: assert [C11.finalSave] $wgWaited
 
 //@ func buildJobFromPersistedJob
+//@   safety
 //@   lockmode any
 //@   ensures  [fresh] res != nil && fresh(res) && !$pub[res] && fresh(base(res.Tasks))
 //@   ensures  [C10.buildView] res.ID == pJob.ID && res.Pipeline == pJob.Pipeline && res.Completed == pJob.Completed && res.Canceled == pJob.Canceled && res.Created == pJob.Created && res.Start == pJob.Start && res.End == pJob.End && res.Variables == pJob.Variables && res.User == pJob.User && len(res.Tasks) == len(pJob.Tasks) && res.sched == nil && res.startTimer == nil
@@ -468,6 +500,7 @@ package prunner
 //@ pure freshOrNil(s []*PipelineJob) bool = base(s) == 0 || fresh(base(s))
 
 //@ func (*PipelineRunner).initialLoadFromStore
+//@   safety
 //@   lockmode any
 //@   requires [empty] emptyRunner(r) && r.store != nil
 //@   ensures  [C10.terminal] res == nil ==> forall p string :: all(r.jobsByPipeline[p], terminalJob)
@@ -484,6 +517,7 @@ package prunner
 //@   loop 2 invariant [sep] forall p string, q string :: p != q && base(r.jobsByPipeline[p]) != 0 ==> base(r.jobsByPipeline[p]) != base(r.jobsByPipeline[q])
 
 //@ func NewPipelineRunner
+//@   safety
 //@   lockmode any
 //@ func NewPipelineRunner$1
 //@   lockmode none
@@ -507,10 +541,10 @@ package prunner
 // ---------------------------------------------------------------------------------------
 // Mapping of obligations to the fixed property ids (glob patterns on obligation names)
 //
-//@ property C01: prunner.(*PipelineJob).isRunning/ensures* prunner.(*PipelineRunner).runningJobsCount/ensures* prunner.(*PipelineRunner).runningJobsCount/loop* prunner.*/ensures[C01.*] prunner.*/call-pre[(*PipelineRunner).startJob.slotFree]* prunner.*/call-pre[(*PipelineRunner).startJob.notStarted]* prunner.*/call-pre[(*PipelineRunner).startJob.offList]* prunner.*/ensures[T] prunner.*/loop*/inv-*[T] prunner.*/monitor[RI] prunner.*/ensures[ri] prunner.*/call-pre[*.ri]* prunner.*/loop*/inv-*[ri] prunner.*/assert[C01.*] prunner.*/assert[cnt*] lemma/cntFrame* prunner/writers[PipelineJob.Start] prunner/writers[PipelineJob.Completed] prunner/writers[PipelineJob.Canceled] prunner.*/call-pre[(*PipelineRunner).startJob$1.token]* prunner.(*PipelineRunner).startJobsOnWaitList/* prunner.(*PipelineRunner).startJob/* prunner.(*PipelineRunner).cancelJobInternal/* prunner.removeJobFromWaitList/*
-//@ property C03: prunner.*/ensures[C03.*] prunner.*/monitor[RI] prunner.*/ensures[ri] prunner.*/call-pre[*.ri]* prunner.*/loop*/inv-*[ri] prunner.(*PipelineRunner).startJobsOnWaitList/loop* prunner.(*PipelineRunner).startJob/ensures[skipCanceled] prunner.removeJobFromWaitList/* prunner.*/ensures[C05.offList] prunner.*/ensures[C16.defsOnly] prunner.(*PipelineRunner).startJobsOnWaitList/* prunner.(*PipelineRunner).startJob/* prunner.(*PipelineRunner).cancelJobInternal/* prunner.removeJobFromWaitList/* prunner.*/ensures[C12.keepLive] prunner.(*PipelineRunner).SaveToStore/loop*
+//@ property C01: prunner.(*PipelineJob).isRunning/ensures* prunner.(*PipelineRunner).runningJobsCount/ensures* prunner.(*PipelineRunner).runningJobsCount/loop* prunner.*/ensures[C01.*] prunner.*/call-pre[(*PipelineRunner).startJob.slotFree]* prunner.*/call-pre[(*PipelineRunner).startJob.notStarted]* prunner.*/call-pre[(*PipelineRunner).startJob.offList]* prunner.*/ensures[T] prunner.*/loop*/inv-*[T] prunner.*/monitor[RI] prunner.*/ensures[ri] prunner.*/call-pre[*.ri]* prunner.*/loop*/inv-*[ri] prunner.*/assert[C01.*] prunner.*/assert[cnt*] lemma/cntFrame* prunner/writers[PipelineJob.Start] prunner/writers[PipelineJob.Completed] prunner/writers[PipelineJob.Canceled] prunner.*/call-pre[(*PipelineRunner).startJob$1.token]* prunner.(*PipelineRunner).startJobsOnWaitList/* prunner.(*PipelineRunner).startJob/* prunner.(*PipelineRunner).cancelJobInternal/* prunner.removeJobFromWaitList/* prunner.*/safety
+//@ property C03: prunner.*/ensures[C03.*] prunner.*/monitor[RI] prunner.*/ensures[ri] prunner.*/call-pre[*.ri]* prunner.*/loop*/inv-*[ri] prunner.(*PipelineRunner).startJobsOnWaitList/loop* prunner.(*PipelineRunner).startJob/ensures[skipCanceled] prunner.removeJobFromWaitList/* prunner.*/ensures[C05.offList] prunner.*/ensures[C16.defsOnly] prunner.(*PipelineRunner).startJobsOnWaitList/* prunner.(*PipelineRunner).startJob/* prunner.(*PipelineRunner).cancelJobInternal/* prunner.removeJobFromWaitList/* prunner.*/ensures[C12.keepLive] prunner.(*PipelineRunner).SaveToStore/loop* prunner.*/safety
 //@ property C04: prunner.*/assert[C04.*] prunner.*/ensures[C04.*] prunner.(*PipelineRunner).startJob/ensures[skipCanceled] prunner.*/ensures[T] prunner.(*PipelineJob).markAsCanceled/* prunner.*/call-pre[(*PipelineRunner).startJob.*]* prunner/writers[PipelineJob.Canceled] prunner.*/monitor[RI]
-//@ property C05: prunner.*/ensures[C05.*] prunner.*/monitor[RI] prunner.*/ensures[ri] prunner.*/call-pre[*.ri]* prunner.*/loop*/inv-*[ri] prunner.removeJobFromWaitList/* prunner.(*PipelineRunner).runningJobsCount/* prunner.*/ensures[C15.reject] prunner.*/ensures[C15.accept] lemma/cntFrame* prunner.*/loop*/inv-*[others] prunner.*/loop*/inv-*[mine] prunner.*/loop*/inv-*[purged] prunner.(*PipelineRunner).startJobsOnWaitList/* prunner.(*PipelineRunner).startJob/* prunner.(*PipelineRunner).cancelJobInternal/* prunner.removeJobFromWaitList/*
+//@ property C05: prunner.*/ensures[C05.*] prunner.*/monitor[RI] prunner.*/ensures[ri] prunner.*/call-pre[*.ri]* prunner.*/loop*/inv-*[ri] prunner.removeJobFromWaitList/* prunner.(*PipelineRunner).runningJobsCount/* prunner.*/ensures[C15.reject] prunner.*/ensures[C15.accept] lemma/cntFrame* prunner.*/loop*/inv-*[others] prunner.*/loop*/inv-*[mine] prunner.*/loop*/inv-*[purged] prunner.(*PipelineRunner).startJobsOnWaitList/* prunner.(*PipelineRunner).startJob/* prunner.(*PipelineRunner).cancelJobInternal/* prunner.removeJobFromWaitList/* prunner.*/safety
 //@ property C06: prunner.*/ensures[C06.*] prunner.(*PipelineRunner).ScheduleAsync/ensures[C05.queue] prunner.(*PipelineRunner).ScheduleAsync/ensures[C05.replace] prunner.(*PipelineRunner).ScheduleAsync/ensures[C05.start] prunner.(*PipelineRunner).startJobsOnWaitList/loop* prunner.*/call-pre[(*PipelineRunner).startJob.offList]* prunner.removeJobFromWaitList/* prunner.*/monitor[RI] prunner.*/ensures[C12.waitLists] prunner.(*PipelineRunner).startJobsOnWaitList/* prunner.(*PipelineRunner).startJob/* prunner.(*PipelineRunner).cancelJobInternal/* prunner.removeJobFromWaitList/* prunner.*/ensures[T] prunner.*/ensures[ri] prunner.*/call-pre[*.ri]*
 //@ property C07: prunner.*/ensures[C07.*] prunner.*/call-pre[(*PipelineRunner).startJob.timerDone]* prunner.*/ensures[C03.timerTruth] prunner.*/ensures[C03.progress] prunner.(*PipelineRunner).ScheduleAsync/ensures[C05.replace] prunner.(*PipelineRunner).startJob/ensures[skipCanceled] prunner.(*PipelineRunner).resolveDequeueJobAction/ensures* prunner/writers[PipelineJob.startTimer] prunner/writers[PipelineJob.StartDelay]
 //@ property C10: prunner.*/ensures[C10.*] prunner.(*PipelineRunner).initialLoadFromStore/loop* prunner.buildJobFromPersistedJob/* helper.*/ensures* store/globalinit[json] store.(*JsonDataStore).Load/ensures[C09.load] prunner.*/assert[C10.*] prunner.(*PipelineJob).isRunning/ensures* prunner.(*PipelineRunner).SaveToStore/loop3/* prunner.(*PipelineRunner).SaveToStore/loop4/*
